@@ -15,6 +15,9 @@
 (*   Rename    map, sp (layout), ok, toks (re-tokenised result), text (line ends      *)
 (*             written <NL>), vok, vals                                               *)
 (*   RenameOne target, repl, sp, ok, toks, text, vok, vals                            *)
+(*   RenameVia route, map, sp, built (the Equation could be constructed), ok, pre     *)
+(*             (tokens of the right-hand side before the call), toks (after), vok,    *)
+(*             vals                                                                   *)
 (*   ListNames sp, ok, names                                                          *)
 (*   End                                                                              *)
 EXTENDS Tokens, Json, IOUtils
@@ -51,6 +54,20 @@ JudgeRename(e, ts, m, predicted) ==
     ELSE IF e.text # UntokText(predicted) THEN V("drift", "untokenize_spelling")
     ELSE Ok
 
+(* through Equation / EquationBlock: the sentences on the stored form e.pre; the value is   *)
+(* that of the expression (normal forms keep it); an Equation that refuses the text has     *)
+(* nothing to rename                                                                        *)
+JudgeVia(e, ts, m) ==
+    IF ~e.built THEN Ok
+    ELSE IF ~e.ok THEN V("property", "C13_OnlyWholeNames")
+    ELSE IF NamesOp(e.pre) # NamesOp(ts) THEN V("drift", "stored_names")
+    ELSE IF ~OnlyWholeNames(e.pre, m, e.toks) THEN V("property", "C13_OnlyWholeNames")
+    ELSE IF ~Simultaneous(e.pre, m, e.toks) THEN V("property", "C13_Simultaneous")
+    ELSE IF AllIdentity(m) /\ e.toks # e.pre THEN V("property", "C13_Simultaneous")
+    ELSE IF MustPreserve(ts, m) /\ (~e.vok \/ e.vals # << Expected(ts, 1), Expected(ts, 2) >>)
+         THEN V("property", "C13_ValuePreserved")
+    ELSE Ok
+
 JudgeList(e, ts, predicted) ==
     IF ~e.ok THEN V("property", "C13_ListIsNamesInOrder")
     ELSE IF ~ListIsNamesInOrder(ts, e.names) THEN V("property", "C13_ListIsNamesInOrder")
@@ -80,6 +97,10 @@ TraceNext ==
        \/ /\ e.ev = "Rename"
           /\ IF Ready THEN Rename(e.map) ELSE UNCHANGED vars
           /\ verdict' = Worse(verdict, IF Ready THEN JudgeRename(e, toks, e.map, res')
+                                       ELSE V("drift", "not_ready"))
+       \/ /\ e.ev = "RenameVia"
+          /\ IF Ready /\ OneLine(toks) THEN RenameVia(e.route, e.map) ELSE UNCHANGED vars
+          /\ verdict' = Worse(verdict, IF Ready /\ OneLine(toks) THEN JudgeVia(e, toks, e.map)
                                        ELSE V("drift", "not_ready"))
        \/ /\ e.ev = "RenameOne"
           /\ IF Ready THEN RenameOne(e.target, e.repl) ELSE UNCHANGED vars
